@@ -14,7 +14,7 @@ def sh(cmd, timeout=900, cwd=None):
 
 
 def main():
-    src, sid, props = sys.argv[1], sys.argv[2], sys.argv[3:]
+    src, sid, props = os.path.abspath(sys.argv[1]), sys.argv[2], sys.argv[3:]
     if not props:                                        # re-run: the properties recorded last time
         props = json.load(open(os.path.join(src, "meta.json")))["properties"]
     patch = os.path.join(src, "patch.diff")
